@@ -3,6 +3,7 @@
 from __future__ import annotations
 
 import functools
+import json
 import itertools
 
 PROP = "C03"
@@ -52,6 +53,9 @@ THEOREMS = [
     "C03_ready_current_value",
     "C03_mutation_shuts_gate",
     "C03_memoised_ready_witness",
+    "C03_replace_keeps_order",
+    "C03_replace_keeps_priority",
+    "C03_replace_reversed_witness",
 ]
 RULE = (
     "family `prod`: the full product of 0-4 connections x every connection order x every upstream state "
@@ -1121,6 +1125,151 @@ def _mut_points():
     return [(c, w, p, t) for c in ("CG", "CGC") for w in (0, 1) for p in MUT_PATH for t in MUT_WHEN]
 
 
+# a consumer replaced by a fresh instance of its class (by instance, through the node, by class assignment), in a
+# workflow and inside a macro: the replacement inherits the ORDER of the connections
+REPL_HOW = ["inst", "with", "class"]
+REPL_WHEN = ["before", "between", "twice", "afterrt"]
+
+
+def _repl_case(k, perm, states, how, when, idx):
+    cons = ("C3", "C3T", "C3C", "CF")[idx % 4]
+    specs = ["SrcU", "SrcU", "SrcU", cons]
+    nodes, _c, _l = layout(specs)
+    cn = 3
+    x, y, z = nodes[cn]["ins"]
+    outs = [nodes[j]["outs"][0] for j in range(3)]
+    good = {"CF": (204, 206, 5)}.get(cons, (9, 101, 5))
+    upv = {"CF": (204, 212, 240)}.get(cons, (1, 2, 3))
+    upbad = {"CF": (3, 221, 232)}.get(cons, (102, 220, 241))
+    ops = [["set", y, good[1]], ["set", z, good[2]]]
+    if idx % 3 == 0:
+        ops.append(["set", x, good[0]])
+    for j in range(k):
+        if states[j] == "data":
+            ops.append(["set", outs[j], upv[j]])
+        elif states[j] == "bad":
+            ops.append(["set", outs[j], upbad[j]])
+    ops += [["connect", x, outs[j]] for j in perm]
+    rp = ["replace", cn, how]
+    run = ["run", cn, [], []]
+    if idx % 5 == 1:
+        ops.append(["flag", cn, 0, 1])  # the old node had failed: the fresh one has not
+    if idx % 5 == 2:
+        ops += [["strict", y, 0], ["set", y, 7 if cons != "CF" else 5]]  # a value the fresh, strict input will not take
+    if when == "before":
+        ops += [rp, run]
+    elif when == "between":
+        ops += [run, rp, run, ["set", outs[perm[-1]] if perm else z, upv[0] if perm else good[2]], run]
+    elif when == "twice":
+        ops += [rp, ["replace", cn, REPL_HOW[(REPL_HOW.index(how) + 1) % 3]], run]
+    else:
+        ops += [["rt", "pickle" if idx % 2 else "cloud"], rp, run, ["rt", "file"], run]
+    return {"fam": "repl", "wf": True, "nodes": specs, "ops": ops,
+            "dims": {"k": k, "perm": list(perm), "states": list(states), "how": how, "when": when}}
+
+
+def _repl_macro_case(kind, how, when, sx, su, idx):
+    """the child `c` of a macro is replaced (MC: c.x holds two connections made inside the macro; MU / M3: c is fed by
+    value links only); then the macro and the child are run"""
+    specs = ["SrcU", kind]
+    nodes, _c, _l = layout(specs)
+    m = 1
+    mins = nodes[m]["ins"]
+    leaf = [n for n in nodes if n["path"][0] == 1 and n["spec"] == "C3"][0]["id"]
+    ops = [["set", mins[1], 101], ["set", mins[2], 5]]
+    if sx:
+        ops.append(["set", mins[0], 1])
+    if kind == "MC" and su:
+        ops.append(["set", mins[3], 2])
+    rp = ["replace", leaf, how]
+    run = ["run", m, [], []]
+    if when == "before":
+        ops += [rp, run, ["run", leaf, [], []]]
+    elif when == "between":
+        ops += [run, rp, run, ["run", m, [["x", 3]], []], ["run", leaf, [], []]]
+    elif when == "twice":
+        ops += [run, rp, ["replace", leaf, REPL_HOW[(REPL_HOW.index(how) + 1) % 3]], ["run", m, [["z", 6]], []]]
+    else:
+        ops += [run, ["rtnode", m, "pickle"], rp, run]
+    return {"fam": "repl", "nodes": specs, "ops": ops, "dims": {"kind": kind, "how": how, "when": when}}
+
+
+def _repl_points():
+    pts = []
+    for k in (2, 3):
+        for perm in itertools.permutations(range(k)):
+            for states in itertools.product(("data", "nd", "bad"), repeat=k):
+                for how in REPL_HOW:
+                    for when in REPL_WHEN:
+                        pts.append(("wf", k, perm, states, how, when))
+    for kind in ("MC", "MU", "M3"):
+        for how in REPL_HOW:
+            for when in REPL_WHEN:
+                for sx in (True, False):
+                    for su in ((True, False) if kind == "MC" else (True,)):
+                        pts.append(("macro", kind, how, when, sx, su))
+    return pts
+
+
+# composite consumers with a dynamic body in the refused-run clause
+FOR_WRONG = ["none", "ynd", "znd", "ybadsoft", "ybadhard", "ybadhard_kw", "upnd", "upbad", "upgood", "xnd", "xbad",
+             "xbadsoft", "failed", "running", "kwznd", "kwybad", "xlonger"]
+
+
+def _for_case(kind, wf, cache, wrong, first, idx):
+    """`first`: the for-node already holds results from an earlier run; then something is wrong (or not) and it is
+    run again; then it is repaired and run once more"""
+    ops = [["set", "x", [1, 2]], ["set", "y", 101], ["set", "z", 5]]
+    if first:
+        ops.append(["run", []])
+    kw = []
+    w = wrong
+    if w == "ynd":
+        ops.append(["set", "y", "ND"])
+    elif w == "znd":
+        ops.append(["set", "z", "ND"])
+    elif w == "ybadsoft":
+        ops += [["strict", "y", 0], ["set", "y", 7]]
+    elif w == "ybadhard":
+        ops += [["strict", "y", 0], ["set", "y", 7], ["strict", "y", 1]]
+    elif w == "ybadhard_kw":
+        ops += [["strict", "y", 0], ["set", "y", 7], ["strict", "y", 1]]
+        kw = [["z", 6]]
+    elif w == "upnd":
+        ops += [["set", "y", "ND"], ["connect", "y"]]
+    elif w == "upbad":
+        ops += [["upset", 3], ["connect", "y"]]
+    elif w == "upgood":
+        ops += [["upset", 102], ["connect", "y"]]
+    elif w == "xnd":
+        ops.append(["set", "x", "ND"])
+    elif w == "xbad":
+        ops += [["strict", "x", 0], ["set", "x", [101, 102]], ["strict", "x", 1]]
+    elif w == "xbadsoft":
+        ops += [["strict", "x", 0], ["set", "x", [101, 102]]]
+    elif w == "failed":
+        ops.append(["flag", 0, 1])
+    elif w == "running":
+        ops.append(["flag", 1, 0])
+    elif w == "kwznd":
+        kw = [["z", "ND"]]
+    elif w == "kwybad":
+        kw = [["y", 4]]
+    elif w == "xlonger":
+        ops.append(["set", "x", [1, 2, 3]])
+    ops.append(["run", kw])
+    ops.append(["run", []])
+    ops += [["flag", 0, 0], ["disconnect", "y"], ["strict", "x", 1], ["strict", "y", 1]]
+    ops += [["set", "x", [3] if idx % 2 else [1, 2]], ["set", "y", 102], ["set", "z", 5], ["run", []]]
+    return {"fam": "for", "kind": kind, "wf": wf, "cache": cache, "ops": ops,
+            "dims": {"wrong": wrong, "first": first}}
+
+
+def _for_points():
+    return [(kind, wf, cache, w, first) for kind in ("df", "list") for wf in (False, True) for cache in (False, True)
+            for w in FOR_WRONG for first in (True, False)]
+
+
 def _adv_points():
     pts = []
     for v in ADV:
@@ -1142,6 +1291,8 @@ def gen_cases(rng, tier):
     advp = _adv_points()
     mrp, cap, exp_ = _mrun_points(), _cache_points(), _exec_points()
     upp, mup = _uprun_points(), _mut_points()
+    rpp = _repl_points()
+    fop = _for_points()
     if tier == "quick":
         ridx = sorted(rng.sample(range(len(rtp)), 280))
         aidx = sorted(rng.sample(range(len(advp)), 330))
@@ -1152,6 +1303,8 @@ def gen_cases(rng, tier):
         n_rx = 50
         uidx = sorted(rng.sample(range(len(upp)), 150))
         muidx = range(len(mup))
+        rpidx = sorted(set(rng.sample(range(len(rpp)), 100)) | {i for i, pt in enumerate(rpp) if pt[0] == "macro" and i % 2})
+        foidx = sorted(rng.sample(range(len(fop)), 84))
         small = [i for i, pt in enumerate(prod) if pt[0] <= 2]
         big = [i for i, pt in enumerate(prod) if pt[0] > 2]
         pidx = small + sorted(rng.sample(big, 900))
@@ -1167,6 +1320,8 @@ def gen_cases(rng, tier):
         midx, cidx, eidx = range(len(mrp)), range(len(cap)), range(len(exp_))
         n_rx = 2500
         uidx, muidx = range(len(upp)), range(len(mup))
+        rpidx = range(len(rpp))
+        foidx = range(len(fop))
     off = rng.randrange(10_000)
     for i in pidx:
         yield _prod_case(*prod[i], idx=i + off)
@@ -1194,6 +1349,11 @@ def gen_cases(rng, tier):
         yield _uprun_case(*upp[i], idx=i + off)
     for i in muidx:
         yield _mut_case(*mup[i], idx=i + off)
+    for i in foidx:
+        yield _for_case(*fop[i], idx=i + off)
+    for i in rpidx:
+        pt = rpp[i]
+        yield (_repl_case if pt[0] == "wf" else _repl_macro_case)(*pt[1:], idx=i + off)
 
 
 def corpus():
@@ -1401,6 +1561,8 @@ def _variant():
 
 
 def run_impl(case):
+    if case.get("fam") == "for":
+        return _run_for(case)
     import pickle
 
     from . import nodes_c03 as N
@@ -1549,6 +1711,34 @@ def run_impl(case):
                     sched.jobs.remove(job)
                     _run_job(job)  # the done-callback (`_finish_run`) runs here; what it raises is swallowed by the future
                     res = "completed"
+            elif kind == "replace":
+                # node op[1] (a function node that is the child of a workflow or of a macro) is replaced by a fresh
+                # instance of its class: by instance through the parent / through the node, or by class assignment
+                n_ = nodes[op[1]]
+                old = nobj[op[1]]
+                parent = old.parent
+                assert parent is not None and not n_["kids"], "replace needs a function node with a parent"
+                cls = getattr(N, n_["spec"])
+                try:
+                    if op[2] == "inst":
+                        parent.replace_child(old, cls(label="fresh"))
+                    elif op[2] == "with":
+                        old.replace_with(cls(label="fresh"))
+                    else:
+                        setattr(parent, old.label, cls)
+                except AssertionError:
+                    raise
+                except Exception:  # noqa: BLE001
+                    res = "Replace"
+                else:
+                    gone = {id(ch) for ch in list(old.inputs) + list(old.outputs)}
+                    for ch in cobj:
+                        if ch.value_receiver is not None and id(ch.value_receiver) in gone:
+                            ch.value_receiver = None  # a foreign receiver that pointed at the replaced node
+                    sched.jobs[:] = [j for j in sched.jobs if j[0] is not old]
+                    if wf is not None:
+                        tops = [wf.children[f"n{i}"] for i in range(len(tops))]
+                    resolve()
             elif kind == "mutate":
                 # the harness is the other holder of the pool object: it changes it in place; no channel is told
                 assert (op[1], op[2]) in MUTATIONS and op[1] in pool and op[2] not in pool, f"mutate precondition {op}"
@@ -1639,7 +1829,184 @@ def run_impl(case):
     return {"obs": obs, "states": states, "stats": stats, "variant": list(variant)}
 
 
+# ----------------------------------------------------------------------------- for-nodes (oracle only)
+
+
+def _fcanon(v):
+    """canonical form of a for-node input / output value: pool values as usual, lists element-wise, a dataframe by its
+    records"""
+    if type(v) is list:
+        return "L[" + ",".join(_fcanon(e) for e in v) + "]"
+    c = _canon(v)
+    if not c.startswith("?"):
+        return c
+    if type(v).__name__ == "DataFrame":
+        return "DF[" + ";".join(",".join(f"{k}={_fcanon(x)}" for k, x in rec.items()) for rec in v.to_dict("records")) + "]"
+    return c
+
+
+def _run_for(case):
+    """a For node over the consumer C3 (x looped, y and z broadcast), optionally inside a workflow, with an upstream
+    source that can be connected to a broadcast input; observed after every op: inputs, outputs, flags, the calls of
+    the body functions and the identity of the children (the sub-graph)"""
+    from pyiron_workflow import Workflow, for_node
+    from pyiron_workflow.channels import NOT_DATA
+
+    from . import nodes_c03 as N
+
+    N.reset()
+    f = for_node(N.C3, iter_on=("x",), output_as_dataframe=case["kind"] == "df", use_cache=bool(case.get("cache")),
+                 label="f")
+    up = N.SrcU(label="u")
+    if case.get("wf"):
+        wf = Workflow("w", autoload=None)
+        wf.add_child(up)
+        wf.add_child(f)
+    seen = {}
+
+    def pv(k):
+        if k == "ND":
+            return NOT_DATA
+        if isinstance(k, list):
+            return [pv(e) for e in k]
+        return k if k < 100 else f"s{k}"
+
+    def snap():
+        kids = []
+        for ch in f.children.values():
+            kids.append(seen.setdefault(id(ch), len(seen)))
+        return {"ins": {c.label: _fcanon(c.value) for c in f.inputs},
+                "strict": {c.label: int(bool(c.strict_hints)) for c in f.inputs},
+                "conn": {c.label: int(c.connected) for c in f.inputs},
+                "up": _fcanon(up.outputs.o.value),
+                "outs": {c.label: _fcanon(c.value) for c in f.outputs},
+                "flags": (int(bool(f.running)), int(bool(f.failed))), "kids": kids}
+
+    keep = []  # children stay referenced so that ids are not re-used
+    states = [{"op": None, "res": "init", "calls": [], **snap()}]
+    for op in case["ops"]:
+        n0 = len(N.CALLS)
+        res = "ok"
+        keep.extend(f.children.values())
+        try:
+            k = op[0]
+            if k == "set":
+                f.inputs[op[1]].value = pv(op[2])
+            elif k == "strict":
+                f.inputs[op[1]].strict_hints = bool(op[2])
+            elif k == "upset":
+                up.outputs.o.value = pv(op[1])
+            elif k == "connect":
+                f.inputs[op[1]].connect(up.outputs.o)
+            elif k == "disconnect":
+                f.inputs[op[1]].disconnect(up.outputs.o)
+            elif k == "flag":
+                f.running, f.failed = bool(op[1]), bool(op[2])
+            elif k == "run":
+                f.run(**{lab: pv(v) for lab, v in op[1]})
+            else:
+                raise AssertionError(f"unknown op {op}")
+        except AssertionError:
+            raise
+        except Exception as e:  # noqa: BLE001
+            res = _classify(e)
+        calls = [[_canon(v) for v in a] for a in N.CALLS[n0:]]
+        states.append({"op": op, "res": res, "calls": calls, **snap()})
+    obs = [f"{s_['res']} | {json.dumps({k_: s_[k_] for k_ in ('ins', 'outs', 'flags', 'calls')}, sort_keys=True)}"
+           for s_ in states[1:]]
+    stats = {"fam:for": 1}
+    for s_ in states[1:]:
+        key = f"for:{s_['op'][0]}:{s_['res']}"
+        stats[key] = stats.get(key, 0) + 1
+    return {"obs": obs, "states": states, "stats": stats, "variant": list(_variant())}
+
+
+def _for_admit(lab, v):
+    """reference verdict for the for-node's own inputs (x: list[int], y: str, z: anything) on canonical values"""
+    if lab == "z":
+        return True
+    if lab == "y":
+        return v.isdigit() and 100 < int(v) < 200
+    return v.startswith("L[") and all(e.isdigit() and int(e) < 100 for e in v[2:-1].split(",") if e)
+
+
+def _oracle_for(case, r):
+    """the refused-run clause and the gate for a composite consumer with a dynamic body: a run that is refused — by a
+    keyword, by the fetch, or at the gate — calls no body function, leaves every output, `failed` AND the sub-graph
+    (the children objects) untouched, and a refusal at the gate is a ReadinessError; an admitted run calls the body
+    only on elements / broadcast values the body's strict hints accept"""
+    fails = []
+    states = r["states"]
+    for k in range(1, len(states)):
+        pre, post = states[k - 1], states[k]
+        op, res = post["op"], post["res"]
+        if op[0] != "run":
+            continue
+        ev = dict(pre["ins"])
+        err = None
+        for lab, v in op[1]:
+            cv = "ND" if v == "ND" else ("L[" + ",".join(str(e) if e < 100 else str(e) for e in v) + "]"
+                                         if isinstance(v, list) else str(v))
+            if pre["flags"][0]:
+                err = "Runtime"
+                break
+            if pre["strict"][lab] and cv != "ND" and not _for_admit(lab, cv):
+                err = "Type"
+                break
+            ev[lab] = cv
+        if err is None:
+            for lab in ("x", "y", "z"):
+                if pre["conn"][lab] and pre["up"] != "ND":
+                    if pre["flags"][0]:
+                        err = "Runtime"
+                        break
+                    if pre["strict"][lab] and not _for_admit(lab, pre["up"]):
+                        err = "Type"
+                        break
+                    ev[lab] = pre["up"]
+        gate = None
+        if err is None:
+            ready = all(ev[lab] != "ND" and (not pre["strict"][lab] or _for_admit(lab, ev[lab])) for lab in "xyz")
+            if pre["flags"][0] or pre["flags"][1] or not ready:
+                gate = "Readiness"
+        sig = {"kind": case["kind"], "held_results": any(v != "ND" for v in pre["outs"].values())}
+        if err is not None or gate is not None:
+            if res in ("ok", "invoked") or post["calls"]:
+                fails.append(_f("gate-open", k, op, f"for-node ran ({res}, calls {post['calls']}) although "
+                                                    f"{gate or err} refuses", **sig))
+            else:
+                if gate and res != "Readiness":
+                    fails.append(_f("refusal-kind", k, op, f"expected a ReadinessError, got {res}", **sig))
+                if post["outs"] != pre["outs"]:
+                    fails.append(_f("refused-not-clean", k, op, f"outputs changed during a refused run: "
+                                                                f"{pre['outs']} -> {post['outs']}", **sig))
+                if post["flags"][1] != pre["flags"][1]:
+                    fails.append(_f("refused-not-clean", k, op, "`failed` changed during a refused run", **sig))
+                if post["kids"] != pre["kids"]:
+                    fails.append(_f("refused-not-clean", k, op, "the sub-graph was rebuilt during a refused run", **sig))
+        else:
+            xs = [e for e in ev["x"][2:-1].split(",") if e]
+            body_ok = all(e.isdigit() and int(e) < 100 for e in xs) and _for_admit("y", ev["y"])
+            want = sorted([e, ev["y"], ev["z"]] for e in xs)
+            got = sorted(post["calls"])
+            for a in post["calls"]:
+                if not (a[0].isdigit() and int(a[0]) < 100 and _for_admit("y", a[1]) and a[2] != "ND"):
+                    fails.append(_f("called-on-bad", k, op, f"body function called with {a}", **sig))
+            if body_ok:
+                hit = case.get("cache") and res == "ok" and not post["calls"] and post["outs"] == pre["outs"]
+                if not hit and (res not in ("ok", "invoked") or got != want):
+                    fails.append(_f("gate-shut", k, op, f"every input ready, yet the run ended with {res} and calls "
+                                                        f"{got} (expected {want})", **sig))
+            elif res in ("ok", "invoked") and len(got) == len(want):
+                fails.append(_f("gate-open", k, op, f"a body ran on an element its hint rejects: {got}", **sig))
+        if fails:
+            break
+    return fails
+
+
 def nontrivial(case, r):
+    if case.get("fam") == "for":
+        return any(s_["res"] in ("ok", "Readiness") for s_ in r.get("states", [])[1:] if s_["op"][0] == "run")
     for s in r.get("states", [])[1:]:
         k = s["op"][0]
         if k in ("run", "runx", "complete") and s["res"] in ("invoked", "Readiness", "invoked+Type", "submitted",
@@ -1677,7 +2044,14 @@ def _rtline(nodes, chans, roots, with_wf):
     return f"rt {' '.join(map(str, scope_of(nodes, roots)))} {' '.join(groups)}".rstrip()
 
 
+def corr_view(case, impl):
+    """for-node cases are judged by the oracle alone (their dynamic body is not in the Lean model)"""
+    return None if case.get("fam") == "for" else impl["obs"]
+
+
 def model_input(case, impl=None):
+    if case.get("fam") == "for":
+        return []
     nodes, chans, links, wires = layout(case["nodes"], full=True)
     lines = []
     lines.append("cfg " + " ".join(map(str, (impl or {}).get("variant") or (1, 0, 0, 1, 0))))
@@ -1751,6 +2125,12 @@ def model_input(case, impl=None):
             lines.append(f"submit {op[1]} {_kwlines(nodes, op[1], op[2], op[3])}".rstrip())
         elif k == "complete":
             lines.append(f"complete {op[1]}")
+        elif k == "replace" and op[2] in ("inst", "with", "class") and 0 <= op[1] < len(nodes) \
+                and not nodes[op[1]]["kids"] and (case.get("wf") or len(nodes[op[1]]["path"]) > 1):
+            par = [m for m in nodes if op[1] in m["kids"]]
+            pi = par[0]["ins"] if par else []
+            po = par[0]["outs"] if par else []
+            lines.append(f"replace {op[1]} P={_csv(pi)} Q={_csv(po)}")
         elif k == "mutate" and (op[1], op[2]) in MUTATIONS:
             lines.append(f"mutate {op[1]} {op[2]}")
         elif k == "strict":
@@ -2002,6 +2382,8 @@ def _judge(nodes, chans, out_ch, k, pre, post, stamps, pend=None):
 def oracle(case, r):
     if "states" not in r:
         return []
+    if case.get("fam") == "for":
+        return _oracle_for(case, r)
     nodes, chans, _links = layout(case["nodes"])
     states = r["states"]
     fails = []
@@ -2032,6 +2414,11 @@ def oracle(case, r):
             pend.setdefault(op[1], []).append([str(_val(post["vals"][i])) for i in nodes[op[1]]["ins"]])
         if kind == "complete" and pend.get(op[1]):
             pend[op[1]].pop(0)  # the oldest job of the node finishes
+        if kind == "replace" and res == "ok":
+            # a fresh node: no job of the old one concerns it, and what it holds went through its own setters
+            pend.pop(op[1], None)
+            for c in nodes[op[1]]["ins"] + nodes[op[1]]["outs"]:
+                excused.pop(c, None)
         if kind == "rt" and res == "ok":
             pend.clear()
         if kind == "rtnode" and res == "ok":
